@@ -478,6 +478,35 @@ class FaultyOut(io.StringIO):
 
 ASYNC_FUNCS = ("draw", "_animate_")
 
+_TRY_LINES = {}
+
+
+def is_try_line(frame):
+    key = (frame.f_code.co_filename, frame.f_lineno)
+    v = _TRY_LINES.get(key)
+    if v is None:
+        import linecache
+        v = _TRY_LINES[key] = linecache.getline(*key).strip() == "try:"
+    return v
+
+
+def line_fault_class():
+    """AsyncFault, except that a bare `try:` line is not a fault position.  CPython >= 3.11 compiles `try:` to a
+    NOP that lies OUTSIDE the exception table of the block it opens, and the interpreter polls for signals only at
+    function entries, backward jumps and calls - never there; a trace function raising on that line event
+    produces what no real interrupt can: the exception leaves the frame past an enclosing `finally:` handler
+    without the handler's clean-up code (the exception being handled stays on the thread's stack for good and
+    keeps every frame of its traceback alive).  Same convention as C07 / C13."""
+    from asyncfault import AsyncFault
+
+    class LineFault(AsyncFault):
+        def _local(self, frame, event, arg):
+            if event == "line" and is_try_line(frame):
+                return self._local
+            return super()._local(frame, event, arg)
+
+    return LineFault
+
 
 def _async_scope(frame):
     import asyncfault
@@ -487,7 +516,7 @@ def _async_scope(frame):
 def run_drawio(case):
     """op: draw / render / str; io_fault: [k, kind] | None; sleep_fault: j | None; rfault: q | None;
     async: k | None (None: no asynchronous fault; -1: counting run)."""
-    from asyncfault import AsyncFault
+    AsyncFault = line_fault_class()
     import contextlib
     c = dict(case)
     c.setdefault("size", [2, 1])
